@@ -54,6 +54,9 @@ type DelScenario struct {
 	// AboveQueued > 0: that many headers right above the head are appended immediately before the deletion is called
 	// (still in the write queue when it starts); a range that reached the head is extended over them
 	AboveQueued int `json:"above_queued,omitempty"`
+	// DsFault > 0 (C08 only, sequential tail-side prefix deletions): the DsFault-th datastore write that
+	// contains a delete fails once during the call; the retried deletion must then complete it.
+	DsFault int `json:"ds_fault,omitempty"`
 }
 
 var delContKinds = []string{"append_next", "append_next", "sync", "settle", "restart_new", "restart_stopstart", "append_repeat", "append_fill"}
@@ -411,6 +414,7 @@ func runDel(t *testing.T, s DelScenario) (r08, r14 Result) {
 			dctx, dcancel = context.WithTimeout(ctx, time.Duration(s.DeadlineSteps)*sleepStep)
 		}
 		var derr error
+		dsFault := false
 		func() {
 			defer func() {
 				if r := recover(); r != nil {
@@ -419,7 +423,13 @@ func runDel(t *testing.T, s DelScenario) (r08, r14 Result) {
 					fail14("DeleteRange panicked (a handler panic must be returned as an error): %v", r)
 				}
 			}()
+			fw0 := e.mem.FailedWrites()
+			if s.DsFault > 0 && valid && !whole && !s.Parallel && from == e.m.T {
+				e.mem.ArmDeleteFault(s.DsFault)
+			}
 			derr = e.st.DeleteRange(dctx, from, to)
+			e.mem.ArmDeleteFault(0)
+			dsFault = e.mem.FailedWrites() > fw0
 		}()
 		dcancel()
 		if derr != nil {
@@ -520,7 +530,9 @@ func runDel(t *testing.T, s DelScenario) (r08, r14 Result) {
 					fail08("failed DeleteRange(%d,%d) made height %d outside the range unreadable", from, to, h)
 				}
 			}
-			if v := e.checkPointersResolve("after failed DeleteRange"); v != "" {
+			// (after an injected datastore fault the running store's Tail may sit on a half-deleted header until
+			// the retry - DESIGN 12, C08-h - so that clause is judged after the retry only)
+			if v := e.checkPointersResolve("after failed DeleteRange"); v != "" && !dsFault {
 				// a whole-chain deletion that removed every header but failed afterwards leaves an empty store
 				allGone := whole
 				for h := e.m.T; h <= e.m.H; h++ {
@@ -535,7 +547,7 @@ func runDel(t *testing.T, s DelScenario) (r08, r14 Result) {
 		}
 
 		// ---- C14 oracle (first attempt) ----
-		if valid && r14.Verdict == "" {
+		if valid && r14.Verdict == "" && !dsFault {
 			if v := c14Judge(obs, 0, removed, len(s.Handlers), derr, anyHandlerFault, before, after, from, to); v != "" {
 				fail14("%s", v)
 			}
@@ -594,7 +606,7 @@ func runDel(t *testing.T, s DelScenario) (r08, r14 Result) {
 							again++
 						}
 					}
-					if again != len(s.Handlers) {
+					if again != len(s.Handlers) && !dsFault {
 						fail14("retry: handler %d failed for height %d in the first attempt; the retried tail-side deletion called %d of %d handlers for it (Tail was moved to %d)", c.Handler, c.Height, again, len(s.Handlers), tail.H)
 						break
 					}
@@ -608,7 +620,9 @@ func runDel(t *testing.T, s DelScenario) (r08, r14 Result) {
 					fail08("after retried deletion: %s", v)
 					return
 				}
-				if v := c14Judge(obs, 1, removed2, len(s.Handlers), nil, false, before2, after2, tail.H, rto); v != "" {
+				if dsFault {
+					r08.label("retry_completed_after_datastore_fault")
+				} else if v := c14Judge(obs, 1, removed2, len(s.Handlers), nil, false, before2, after2, tail.H, rto); v != "" {
 					fail14("retry: %s", v)
 					return
 				}
@@ -844,7 +858,13 @@ func c14Judge(o *delObs, attempt int, removed []uint64, nHandlers int, derr erro
 	return ""
 }
 
-func genC08(t *rapid.T) DelScenario { return genDel(t, rapid.IntRange(0, 2).Draw(t, "faulty") == 0) }
+func genC08(t *rapid.T) DelScenario {
+	s := genDel(t, rapid.IntRange(0, 2).Draw(t, "faulty") == 0)
+	if rapid.IntRange(0, 4).Draw(t, "dsfault") == 0 {
+		s.DsFault = rapid.IntRange(1, 9).Draw(t, "dsfaultn")
+	}
+	return s
+}
 func genC14(t *rapid.T) DelScenario {
 	s := genDel(t, rapid.IntRange(0, 2).Draw(t, "faulty") != 0)
 	if len(s.Handlers) == 0 {
